@@ -27,20 +27,20 @@ namespace OpenFGAVerif.Model.Authzen
 abbrev Struct (V : Type) := List (String × V)
 
 /-- Go map assignment `m[k] = v` -/
-def put {V : Type} (k : String) (v : V) (m : Struct V) : Struct V :=
+def assign {V : Type} (k : String) (v : V) (m : Struct V) : Struct V :=
   (k, v) :: m.filter (fun e => e.1 ≠ k)
 
-def get {V : Type} (m : Struct V) (k : String) : Option V := (m.find? (fun e => e.1 = k)).map (·.2)
+def lookup {V : Type} (m : Struct V) (k : String) : Option V := (m.find? (fun e => e.1 = k)).map (·.2)
 
 /-- the value a Go loop `for k, v := range src { m[k] = v }` leaves for key `k`: the last entry wins
 (a protobuf map has unique keys; nothing below depends on that) -/
-def getLast {V : Type} (m : Struct V) (k : String) : Option V := get m.reverse k
+def getLast {V : Type} (m : Struct V) (k : String) : Option V := lookup m.reverse k
 
 /-- one merge step: `if src != nil { for k, v := range src.AsMap() { merged[prefix+k] = v } }` -/
 def mergeStep {V : Type} (pre : String) (src : Option (Struct V)) (acc : Struct V) : Struct V :=
   match src with
   | none => acc
-  | some s => s.foldl (fun acc e => put (pre ++ e.1) e.2 acc) acc
+  | some s => s.foldl (fun acc e => assign (pre ++ e.1) e.2 acc) acc
 
 def subjectPrefix : String := "subject_"
 def resourcePrefix : String := "resource_"
